@@ -52,11 +52,6 @@ class FakeRules:
     pass
 
 
-def count_axioms(*pairs):
-    """instances of the dependency spec of str.count (one-character needle): additive over concatenation"""
-    return [nl(z3.Concat(a, b)) == nl(a) + nl(b) for a, b in pairs]
-
-
 def split_axiom(s, k):
     """additivity of count at a cut position: s = s[:k] + s[k:] for 0 <= k <= len(s)"""
     return z3.Implies(z3.And(0 <= k, k <= z3.Length(s)), nl(s) == nl(z3.SubString(s, 0, k)) + nl(X.suffix_from(s, k)))
@@ -196,9 +191,6 @@ class LoopBody(X.SegmentVC):
                 return None
             ys.append(y)
         return ys
-
-    def matched(self, out):
-        return self.M is not None and any(e.kind == "call" and False for e in ()) or (out.kind in ("break", "raise", "ok") and "no match" not in out.st.notes)
 
     def index_of(self, y):
         """position of a yielded token among the rule's token kinds"""
